@@ -218,7 +218,7 @@ ADDED = {
 }
 
 
-ADDED2 = {'C03': ' Later: after the optimizer has run on a function body, outputs that are inputs or repeated are given a producing node (R-C03i).', 'C10': ' Later: the vmapped while_loop evaluates its next predicate on the masked state (R-C10i, mirror of C06 R-C06f).', 'C17': ' Later: every admission path of the range-proof walkers accepts only value-set preserving operators (R-C17e).', 'C01': ' Later: conditional cascades fold in the direction that gives the documented priority (R-C01l, jnp.select); every field of Scatter/Gather/ConvDimensionNumbers is read by the modules lowering its primitives (R-C01m); the constant start of a gather window is clamped before it becomes a Slice (R-C01n); memoised dimension nodes are keyed completely (R-C01o, mirror of C04 R-C04h); producer operator-name tests inside lowerings are domain-qualified (R-C01p); special forms are selected by exact constant comparison (R-C01q); a permutation applied to one dot_general operand is computed from the axis lists of that operand only (R-C01r); the attribute pair of the nearest-neighbour Resize selects the source pixel of jax.image.resize on every size pair up to 12 (R-C01s, reference formulas evaluated exactly); the start of a dynamic window is clamped and not wrapped twice (R-C01t).',
+ADDED2 = {'C03': ' Later: after the optimizer has run on a function body, outputs that are inputs or repeated are given a producing node (R-C03i).', 'C10': ' Later: the vmapped while_loop evaluates its next predicate on the masked state (R-C10i, mirror of C06 R-C06f); parameters bound under rules forwarded from a lax primitive are normalised into that primitive domain (R-C10j).', 'C17': ' Later: every admission path of the range-proof walkers accepts only value-set preserving operators (R-C17e).', 'C01': ' Later: conditional cascades fold in the direction that gives the documented priority (R-C01l, jnp.select); every field of Scatter/Gather/ConvDimensionNumbers is read by the modules lowering its primitives (R-C01m); the constant start of a gather window is clamped before it becomes a Slice (R-C01n); memoised dimension nodes are keyed completely (R-C01o, mirror of C04 R-C04h); producer operator-name tests inside lowerings are domain-qualified (R-C01p); special forms are selected by exact constant comparison (R-C01q); a permutation applied to one dot_general operand is computed from the axis lists of that operand only (R-C01r); the attribute pair of the nearest-neighbour Resize selects the source pixel of jax.image.resize on every size pair up to 12 (R-C01s, reference formulas evaluated exactly); the start of a dynamic window is clamped and not wrapped twice (R-C01t).',
     'C02': " Later: side constants of broadcasting operators in chain walks are rank-bounded, also against the reshape fold's source (R-C02o); nodes a pass inserts are anchored before every node re-wired to read their output (R-C02p); values created by passes are named freshly (R-C02q).", 'C04': ' Later: the shape-of-origin rule also covers origins bound by a walrus expression; instance-level memo tables of the dimension lowering are keyed by every parameter the cached value depends on (R-C04h); extent helpers compute a symbolic extent with the same formula instead of returning it unchanged (R-C04g).',
     'C05': " Later: input specifications are prepared without x64-sensitive calls outside the precision scope (R-C05h, mirror of C09 R-C09c); graph inputs created for a caller-named call parameter take the caller's element type (R-C05i); no integer element type is chosen from the precision flag alone (R-C05j); complex tensors that no plugin packed (unused inputs, constant result leaves) are declared and stored as a trailing pair of reals (R-C05k).", 'C06': ' Later: control-flow plugins do not serve traced bodies from memo tables with incomplete or lossy keys (R-C06h, mirror of C14 R-C14g); integer canonicalisation of carries excludes bool (R-C06i); single extents of stamped shapes are not overwritten by a loop-context override (R-C06g, confirmed sites are known findings); every position of a subgraph output list gets a value of its own (R-C06j); body variables of Loop / If subgraphs are bound only to the formal input, a clone, a shape-preserving operator on it or the per-step slice (R-C06k).',
     'C07': " Later: formal parameters of a function body copy only the key-recorded fields of the call-site argument (R-C07f); re-trace specifications carry the aval's weak_type and the input signature of the key records every aval field the specifications copy (R-C07g); per-argument renaming tables in the input signature are lossy (R-C07a); a keyword is wired to an input_params graph input only when its value is the parameter itself (R-C07h).", 'C08': " Later: stamped shapes are the output aval's, no extent overwritten by loop context (R-C08i); permuted shape declarations use the permutation of the same tensor's layout (R-C08l); folds refresh the pass-through nodes they keep (R-C08m); the merge skips only rank-0 constants (R-C08k tightened); closed (shape, perm) expressions of Transpose stamps are evaluated on a 3-cycle (R-C08j).", 'C09': ' Later: graph rewrites do not move tensor payloads into (float32) float attributes without a float32 guard (R-C09g); lowerings do not round Python-computed constants to float32 through a literal dtype (R-C09h).',
